@@ -138,7 +138,7 @@ PROPS = {
         "level": "exploration",
         "jobs": [{"test": "TestC09", "kind": "rapid", "quick": 250000, "thorough": 2000000}],
         "floors": {"refused": ("job:TestC09", 0.03), "composition:steps=2": ("job:TestC09", 0.03), "composition:steps=3": ("job:TestC09", 0.03),
-                   "message": ("job:TestC09", 0.1), "hits>=1:true": ("job:TestC09", 0.5), "key-names-variable-brought-by-inserted-value": ("job:TestC09", 0.005)},
+                   "message": ("job:TestC09", 0.1), "hits>=1:true": ("job:TestC09", 0.5), "key-names-variable-brought-by-inserted-value": ("job:TestC09", 0.004)},
         "rule": "rapid-generated templates (all node kinds, nesting, variables anywhere, with and without unfilled ellipses) x assignments (hits, misses, unknown keys, Go argument "
                 "types by variant, values outside the item's domain / outside declared string bounds, item-variable values that are variable-free subtrees, subtrees with own variables, or "
                 "renames) x an ordered partition of the assignment into 1..4 fills; message level for a third of the cases. Oracle: reference substitution model: FillVariables result has the "
